@@ -17,6 +17,16 @@ repaired in /repo (ca6432f, a7d1d73), so every obligation is proved on the curre
   F7   _process_userauth_request#post(class-inv-J), #post(guarantee-live-auth-keeps-its-user)
   F7b  _finish_userauth#pre-at-call(self.send_userauth_success:no-auth-required-was-decided-for-the-current-user)
   F9   _finish_userauth#pre-at-call(lookup_server_auth:restrictions-are-pristine-when-an-attempt-starts)
+Second audit round:
+  F11  send_userauth_failure#post(guarantee-live-auth-keeps-its-user)  - a FAILURE answer dropped a live auth task
+       (gssapi-with-mic _finish) without cancelling it; repaired in /repo (be2ce89)
+  F12  _finish_userauth#pre-at-call(lookup_server_auth:configuration-is-for-the-current-user),
+       reload_config#post(stored-configuration-belongs-to-the-current-user | class-inv-C),
+       _process_userauth_request#post(class-inv-C | user-changes-only-with-a-new-generation)
+       - the per-user configuration is not tied to the user being authenticated (stale reload store; same-user
+       request overtaking the pending reload/begin_auth).  Recorded known finding F-C05-12 (not repaired);
+       replays notes/audit/C05-r2_reload_race.py, notes/findings/c05_f12b_same_user_request_overtakes_reload.py;
+       patch that makes every obligation prove: notes/findings/c05_r2_proposed_fix.diff (hunks 2-5)
 """
 import z3
 from pyvc.contracts import *
@@ -31,6 +41,18 @@ ASSUMPTIONS = []
 OPTS = 'dict[str,any]'
 SRV_OPT_FIELDS = {'_key_options': OPTS, '_cert_options': 'opt[' + OPTS + ']'}
 SRV_OPT_CLASSES = {'SSHServerConnection': SRV_OPT_FIELDS}
+
+
+# authorized_keys option keywords are case-insensitive (sshd(8)): they are stored lower-cased (OptionsParser, C17) and
+# looked up by the lower-cased name.  lower_s is str.lower (engine: uninterpreted); only definitional instances for
+# the already lower-case keywords the code uses are assumed (LOWER_DEFS).
+LOWER = z3.Function('lower_s', StrS, StrS)
+LOWER_DEFS = [LOWER(z3.StringVal(k)) == z3.StringVal(k)
+              for k in ('principals', 'no-touch-required', 'command', 'environment', 'permitopen', 'from')]
+
+
+def lower_defs(_c):
+    return list(LOWER_DEFS)
 
 
 def _has(m, key):
@@ -61,7 +83,7 @@ def cert_perm_table(c):
 def key_perm_table(c):
     """authorized_keys: every permission is granted unless the entry carries no-<permission>"""
     ko = c.oldv('_key_options')
-    key = z3.Concat(z3.StringVal('no-'), c.arg('permission'))
+    key = LOWER(z3.Concat(z3.StringVal('no-'), c.arg('permission')))
     revoked = z3.And(_has(ko, key), truthy_any(_val(ko, key)))
     return result_truthy(c) == z3.Not(revoked)
 
@@ -83,7 +105,7 @@ def cert_opt_table(c):
 
 def key_opt_table(c):
     ko = c.oldv('_key_options')
-    key = c.arg('option')
+    key = LOWER(c.arg('option'))
     present = _has(ko, key)
     r = c.result_v
     is_default = z3.BoolVal(r is c.argv('default'))
@@ -2450,3 +2472,19 @@ gssmic_process_token = never_spec(
 gssmic_process_error_token = never_spec(
     '_ServerGSSMICAuth._process_error_token', {'run_in_executor': executor_stub,
                                                'str': lambda cx: cx.fresh('str', 'str_of_exc')}, params=TOKEN_PARAMS)
+
+
+# definitional instances of lower_s for the lower-case keywords looked up through the inlined get_key_option
+for _sp in (validate_client_public_key, validate_openssh_certificate, validate_x509_certificate_chain):
+    _sp.lemmas = lower_defs
+
+
+# quick-tier budget (second audit round: 58 functions): sample fewer paths of the packet-parsing functions for the
+# CPython cross-check and give branch pruning (unknown = feasible) a short fuse where it only runs into the timeout
+for _sp, _n in ((process_userauth_request, 3), (hostbased_start, 3), (kbdint_start, 3), (password_start, 5),
+                (publickey_start, 5), (pty_req, 3), (gssmic_process_token, 4), (gssmic_process_error_token, 4),
+                (validate_host_based_auth, 6), (gsskex_start, 5)):
+    _sp.crosscheck_limit = _n
+for _sp in (process_userauth_request, hostbased_start, kbdint_start, password_start, publickey_start, gsskex_start,
+            pty_req, validate_host_based_auth):
+    _sp.feasible_timeout_ms = 250
